@@ -728,6 +728,7 @@ void do_trigger(int ev, int nested)
 {
         struct calllog keep = L;
         int kd = I.depth;
+        I.S->last_svc_ok = 0;
         if (!nested) api_enter();
         int keepf = W.mutex_faults;
         if (mon_trigger_ambiguous()) W.mutex_faults = 0;   /* a masked return value would leave the outcome undetermined */
